@@ -1,0 +1,25 @@
+//go:build verif
+
+// Package verifhook provides named yield points for schedule-perturbing
+// verification harnesses. It is only active when built with the "verif" tag.
+package verifhook
+
+import "sync/atomic"
+
+var yield atomic.Pointer[func(point string)]
+
+// Set installs (or, with nil, removes) the function called at every yield point.
+func Set(f func(point string)) {
+	if f == nil {
+		yield.Store(nil)
+		return
+	}
+	yield.Store(&f)
+}
+
+// At marks a yield point.
+func At(point string) {
+	if f := yield.Load(); f != nil {
+		(*f)(point)
+	}
+}
